@@ -213,9 +213,10 @@ PROPS["C09"] = {
         Job("soyhtml", "H_pure", "0..2,0..1,true,0..5", workers=8),
         Job("soyjs", "H_jsPure", "0..2,false", workers=2),
         Job("soyjs", "H_jsPure", "0..2,true", workers=2),
+        Job("parse", "H_parseRace", "0..8", workers=8, note="happens-before check of scanner/parser memory accesses"),
     ],
-    "bounds": "as C08 for Tofu rendering (3 template sets, symbolic data, with/without obligatory directive), plus soyjs.Write of every file of a two-file bundle under both formatters; in every explored execution all memory reachable from the compiled registry, the caller's data and every package-level variable of the soy packages is frozen",
-    "outside": "the interleavings themselves (no schedule is explored and the race detector is not a solver): the property is decided through the sufficient condition 'concurrent calls only read shared memory'; the documented-unsafe Bundle.recompiler; math/rand's internal lock; goroutines inside one parse (lexer/parser hand-off over a channel) are exercised under the engine's scheduler by C05/C18",
+    "bounds": "as C08 for Tofu rendering (3 template sets, symbolic data, with/without obligatory directive), plus soyjs.Write of every file of a two-file bundle under both formatters; a happens-before (vector clock) check of every heap access of the scanner goroutine and the parser during 9 parses (valid file, lexical and syntax errors, nested expression parser, parse.Expr with and without trailing input); in every explored render/generation all memory reachable from the compiled registry, the caller's data and every package-level variable of the soy packages is frozen",
+    "outside": "the interleavings themselves (no schedule is explored and the race detector is not a solver): the property is decided through the sufficient condition 'concurrent calls only read shared memory'; the documented-unsafe Bundle.recompiler; math/rand's internal lock; inside one parse only the accesses of the executions explored are checked for happens-before order (a confirmed finding is re-run natively under the Go race detector)",
     "assumptions": ["Go memory model: calls that only read shared memory and write memory they allocated themselves are race-free and compute what they compute alone"],
     "level_text": "Bounded symbolic model checking of a sufficient non-interference condition: during Tofu rendering and JavaScript generation no store reaches memory that another call could see (registry, data, package-level registries), established on every path with symbolic data.",
     "level_note": "Schedules are not explored; see outside_bounds. Trusted: go/ssa, gosym heap model, z3.",
